@@ -1,5 +1,5 @@
-\* G05: every well-formed single triple, the standard pairs, every near miss (alone / before / after a well-formed mate),
-\* duplicates, triples over every CONDOR_INHERIT shape; x {parent holds the secret, parent holds another}; direction / mode rotated
+\* G05 quick: a pair-covering third of the well-formed single triples, the standard pairs, every near miss (alone / before / after a
+\* well-formed mate), duplicates, triples over every CONDOR_INHERIT shape; x {parent holds the secret, parent holds another}; direction / mode rotated
 SPECIFICATION Spec
 CONSTANTS
   Tier = "quick"
